@@ -354,6 +354,8 @@ type Store struct {
 	// Sentinel is the reused *oidc.Error of FaultSentinel (one value per store, handed out again and again).
 	Sentinel *oidc.Error
 	wrapSeq  int
+	// Unpublished: the published key set is empty (every key withdrawn) although a signing key still exists
+	Unpublished bool
 }
 
 func NewStore() *Store {
@@ -799,6 +801,10 @@ func (s *Store) KeySet(ctx context.Context) ([]op.Key, error) {
 	}
 	s.mu.Lock()
 	defer s.mu.Unlock()
+	if s.Unpublished {
+		// the operator has withdrawn every key: the key set document is {"keys":[]}
+		return []op.Key{}, nil
+	}
 	out := make([]op.Key, len(s.Keys))
 	for i, k := range s.Keys {
 		out[i] = publicKey{k}
